@@ -1,76 +1,89 @@
-(** Calendar arithmetic: days-from-civil and its inverse round-trip on every
-    valid date of every year (one 400-year era checked exhaustively by
-    vm_compute — a complete sweep of a finite domain — and lifted to all years by
-    the proved 400-year periodicity); seconds <-> civil fields; text <-> fields. *)
+(** Calendar arithmetic, for every year (no bound, no sweep): days-from-civil
+    and its inverse are mutually inverse on the valid dates / on all day
+    numbers — proved stage by stage (era, year of era, month) by linear integer
+    arithmetic over the Euclidean-division equations of the constants in
+    Howard Hinnant's algorithms; seconds <-> civil fields; text <-> fields. *)
 From Spowtd Require Import Model.Calendar.
 From Coq Require Import Lia String Ascii.
 Local Open Scope Z_scope.
 
-(** ** 400-year periodicity *)
+(** lia with the Euclidean-division equations of every quotient / remainder by a constant *)
+Ltac dlia := Z.to_euclidean_division_equations; lia.
 
-Lemma is_leap_period : forall y k, is_leap (y + 400 * k) = is_leap y.
+(** ** Year stage *)
+
+(** The March-based year number yoe of an era (0..399) has a 366th day iff the
+    civil year that holds its February, yoe + 1, is leap. *)
+Definition leap1 (yoe : Z) : Prop := (yoe + 1) mod 4 = 0 /\ ((yoe + 1) mod 100 <> 0 \/ yoe + 1 = 400).
+
+Lemma year_stage : forall yoe doy, 0 <= yoe < 400 -> 0 <= doy <= 365 -> (doy = 365 -> leap1 yoe) ->
+  let doe := yoe * 365 + yoe / 4 - yoe / 100 + doy in
+  0 <= doe < 146097 /\ (doe - doe / 1460 + doe / 36524 - doe / 146096) / 365 = yoe.
+Proof. intros yoe doy H1 H2 H3 doe. unfold doe, leap1 in *. dlia. Qed.
+
+Lemma year_stage_inv : forall doe, 0 <= doe < 146097 ->
+  let yoe := (doe - doe / 1460 + doe / 36524 - doe / 146096) / 365 in
+  let doy := doe - (365 * yoe + yoe / 4 - yoe / 100) in
+  0 <= yoe < 400 /\ 0 <= doy <= 365 /\ (doy = 365 -> leap1 yoe).
+Proof. intros doe H yoe doy. unfold yoe, doy, leap1 in *. dlia. Qed.
+
+Lemma leap1_iff : forall y', is_leap (y' + 1) = true <-> leap1 (y' - y' / 400 * 400).
 Proof.
-  intros y k. unfold is_leap.
-  replace (y + 400 * k) with (y + (100 * k) * 4) at 1 by lia. rewrite Z_mod_plus_full.
-  replace (y + 400 * k) with (y + (4 * k) * 100) at 1 by lia. rewrite Z_mod_plus_full.
-  replace (y + 400 * k) with (y + k * 400) by lia. rewrite Z_mod_plus_full. reflexivity.
+  intros y'. unfold is_leap, leap1.
+  rewrite orb_true_iff, andb_true_iff, negb_true_iff, !Z.eqb_eq, Z.eqb_neq. dlia.
 Qed.
 
-Lemma valid_dateb_period : forall y k m d, valid_dateb (y + 400 * k) m d = valid_dateb y m d.
-Proof. intros. unfold valid_dateb, days_in_month. rewrite is_leap_period. reflexivity. Qed.
+(** ** Month stage *)
 
-Lemma days_from_civil_period : forall y k m d,
-  days_from_civil (y + 400 * k) m d = days_from_civil y m d + 146097 * k.
+Definition mlen (mp : Z) : Z := (153 * (mp + 1) + 2) / 5 - (153 * mp + 2) / 5.
+
+Lemma month_stage : forall mp d, 0 <= mp <= 11 -> 1 <= d <= mlen mp -> (mp = 11 -> d <= 29) ->
+  let doy := (153 * mp + 2) / 5 + d - 1 in
+  (5 * doy + 2) / 153 = mp /\ 0 <= doy <= 365 /\ (doy = 365 -> mp = 11 /\ d = 29).
+Proof. intros mp d H1 H2 H3 doy. unfold doy, mlen in *. dlia. Qed.
+
+Lemma month_stage_inv : forall doy, 0 <= doy <= 365 ->
+  let mp := (5 * doy + 2) / 153 in
+  let d := doy - (153 * mp + 2) / 5 + 1 in
+  0 <= mp <= 11 /\ 1 <= d <= mlen mp /\ (mp = 11 -> d <= 29 /\ (d = 29 -> doy = 365)).
+Proof. intros doy H mp d. unfold mp, d, mlen in *. dlia. Qed.
+
+(** The civil month m and the March-based month mp; lengths of the months. *)
+Definition mp_of (m : Z) : Z := if m <=? 2 then m + 9 else m - 3.
+Definition m_of (mp : Z) : Z := if mp <? 10 then mp + 3 else mp - 9.
+
+Lemma twelve : forall m, 1 <= m <= 12 ->
+  m = 1 \/ m = 2 \/ m = 3 \/ m = 4 \/ m = 5 \/ m = 6 \/ m = 7 \/ m = 8 \/ m = 9 \/ m = 10 \/ m = 11 \/ m = 12.
+Proof. intros. lia. Qed.
+
+(** days_in_month in terms of the March-based month: the formula's length,
+    except February: 28, or 29 in a leap year. *)
+Lemma dim_mlen : forall y m, 1 <= m <= 12 ->
+  0 <= mp_of m <= 11 /\ m_of (mp_of m) = m /\
+  (m <> 2 -> days_in_month y m = mlen (mp_of m)) /\
+  (m = 2 -> mp_of m = 11 /\ days_in_month y m = if is_leap y then 29 else 28).
 Proof.
-  intros y k m d. unfold days_from_civil. cbv zeta.
-  assert (P : forall y', (y' + 400 * k) / 400 = y' / 400 + k).
-  { intros y'. replace (y' + 400 * k) with (y' + k * 400) by lia. apply Z.div_add. lia. }
-  destruct (m <=? 2).
-  - replace (y + 400 * k - 1) with (y - 1 + 400 * k) by lia. rewrite P.
-    replace (y - 1 + 400 * k - ((y - 1) / 400 + k) * 400) with (y - 1 - (y - 1) / 400 * 400) by lia. lia.
-  - rewrite P.
-    replace (y + 400 * k - (y / 400 + k) * 400) with (y - y / 400 * 400) by lia. lia.
+  intros y m H.
+  destruct (twelve m H) as [E|[E|[E|[E|[E|[E|[E|[E|[E|[E|[E|E]]]]]]]]]]]; subst m;
+    (split; [vm_compute; split; discriminate|]); (split; [reflexivity|]);
+    (split; [intros N; try (exfalso; apply N; reflexivity); reflexivity|]);
+    intros N; try discriminate N; split; reflexivity.
 Qed.
 
-Lemma civil_from_days_period : forall z k,
-  civil_from_days (z + 146097 * k) =
-  let '(y, m, d) := civil_from_days z in (y + 400 * k, m, d).
+Lemma valid_date_facts : forall y m d, valid_dateb y m d = true ->
+  1 <= m <= 12 /\ 1 <= d <= mlen (mp_of m) /\
+  (mp_of m = 11 -> d <= 29 /\ (d = 29 -> is_leap y = true)).
 Proof.
-  intros z k. unfold civil_from_days. cbv zeta.
-  assert (P : (z + 146097 * k + 719468) / 146097 = (z + 719468) / 146097 + k).
-  { replace (z + 146097 * k + 719468) with (z + 719468 + k * 146097) by lia. apply Z.div_add. lia. }
-  rewrite P.
-  replace (z + 146097 * k + 719468 - ((z + 719468) / 146097 + k) * 146097)
-    with (z + 719468 - (z + 719468) / 146097 * 146097) by lia.
-  set (doe := z + 719468 - (z + 719468) / 146097 * 146097).
-  set (yoe := (doe - doe / 1460 + doe / 36524 - doe / 146096) / 365).
-  set (doy := doe - (365 * yoe + yoe / 4 - yoe / 100)).
-  set (mp := (5 * doy + 2) / 153).
-  destruct (mp <? 10); [destruct (mp + 3 <=? 2)|destruct (mp - 9 <=? 2)]; f_equal; f_equal; lia.
+  intros y m d H. unfold valid_dateb in H. rewrite !andb_true_iff, !Z.leb_le in H.
+  destruct H as [[[H1 H2] H3] H4]. assert (Hm : 1 <= m <= 12) by lia.
+  destruct (dim_mlen y m Hm) as (Hmp & _ & Hne & Heq). split; [exact Hm|].
+  destruct (Z.eq_dec m 2) as [E2|N2].
+  - destruct (Heq E2) as [Emp Edim]. rewrite Edim in H4. rewrite Emp.
+    assert (mlen 11 = 30) by reflexivity.
+    destruct (is_leap y); (split; [lia|]); intros _; (split; [lia|]); intros E; [reflexivity|lia].
+  - rewrite (Hne N2) in H4. split; [lia|]. intros E11. exfalso. apply N2.
+    unfold mp_of in E11. destruct (Z.leb_spec m 2); lia.
 Qed.
-
-(** ** The exhaustive sweep of one era *)
-
-Definition zrange (a : Z) (n : nat) : list Z := map (fun k => a + Z.of_nat k) (seq 0 n).
-
-Lemma zrange_In : forall a n x, a <= x < a + Z.of_nat n -> In x (zrange a n).
-Proof.
-  intros a n x H. unfold zrange. apply in_map_iff. exists (Z.to_nat (x - a)). split; [lia|].
-  apply in_seq. lia.
-Qed.
-
-Definition check_date (y m d : Z) : bool :=
-  if valid_dateb y m d then
-    (let '(y2, m2, d2) := civil_from_days (days_from_civil y m d) in
-     (y2 =? y) && (m2 =? m) && (d2 =? d))
-  else true.
-
-Definition era_sweep : bool :=
-  forallb (fun y => forallb (fun m => forallb (fun d => check_date y m d) (zrange 1 31)) (zrange 1 12))
-          (zrange 0 400).
-
-Lemma era_sweep_ok : era_sweep = true.
-Proof. vm_compute. reflexivity. Qed.
 
 Lemma valid_dateb_bounds : forall y m d, valid_dateb y m d = true -> 1 <= m <= 12 /\ 1 <= d <= 31.
 Proof.
@@ -80,29 +93,78 @@ Proof.
   destruct ((m =? 4) || (m =? 6) || (m =? 9) || (m =? 11)); lia.
 Qed.
 
-Lemma roundtrip_era0 : forall y m d, 0 <= y < 400 -> valid_dateb y m d = true ->
-  civil_from_days (days_from_civil y m d) = (y, m, d).
-Proof.
-  intros y m d Hy Hv. pose proof (valid_dateb_bounds _ _ _ Hv) as [Hm Hd].
-  pose proof era_sweep_ok as S. unfold era_sweep in S. rewrite forallb_forall in S.
-  specialize (S y (zrange_In 0 400 y ltac:(lia))). rewrite forallb_forall in S.
-  specialize (S m (zrange_In 1 12 m ltac:(lia))). rewrite forallb_forall in S.
-  specialize (S d (zrange_In 1 31 d ltac:(lia))). unfold check_date in S. rewrite Hv in S.
-  destruct (civil_from_days (days_from_civil y m d)) as [[y2 m2] d2].
-  rewrite !andb_true_iff, !Z.eqb_eq in S. destruct S as [[-> ->] ->]. reflexivity.
-Qed.
+(** ** Date -> day number -> date, for every valid date of every year *)
 
-(** Every valid civil date of every year (in particular of years 1..9999, the
-    whole domain of datetime) is recovered from its day number. *)
 Theorem civil_roundtrip : forall y m d, valid_dateb y m d = true ->
   civil_from_days (days_from_civil y m d) = (y, m, d).
 Proof.
-  intros y m d Hv. pose proof (Z.div_mod y 400 ltac:(lia)) as E.
-  pose proof (Z.mod_pos_bound y 400 ltac:(lia)) as B.
-  set (y0 := y mod 400) in *. set (k := y / 400) in *.
-  assert (Ey : y = y0 + 400 * k) by lia. rewrite Ey in Hv |- *.
-  rewrite valid_dateb_period in Hv. rewrite days_from_civil_period, civil_from_days_period.
-  rewrite (roundtrip_era0 y0 m d B Hv). reflexivity.
+  intros y m d Hv. destruct (valid_date_facts y m d Hv) as (Hm & Hd & H11).
+  destruct (dim_mlen y m Hm) as (Hmp & Hmo & _ & _).
+  unfold days_from_civil. cbv zeta. fold (mp_of m).
+  set (y' := if m <=? 2 then y - 1 else y).
+  set (mp := mp_of m) in *.
+  set (era := y' / 400). set (yoe := y' - era * 400).
+  set (doy := (153 * mp + 2) / 5 + d - 1).
+  assert (Hyoe : 0 <= yoe < 400) by (unfold yoe, era; dlia).
+  destruct (month_stage mp d Hmp Hd (fun E => proj1 (H11 E))) as (M1 & M2 & M3). fold doy in M1, M2, M3.
+  assert (L : doy = 365 -> leap1 yoe).
+  { intros E. destruct (M3 E) as [E11 E29]. destruct (H11 E11) as [_ Hl]. specialize (Hl E29).
+    unfold yoe, era. apply leap1_iff.
+    assert (Em : m = 2). { unfold mp, mp_of in E11. destruct (Z.leb_spec m 2); lia. }
+    unfold y'. rewrite Em. simpl. replace (y - 1 + 1) with y by lia. exact Hl. }
+  destruct (year_stage yoe doy Hyoe M2 L) as (Y1 & Y2).
+  set (doe := yoe * 365 + yoe / 4 - yoe / 100 + doy) in *.
+  unfold civil_from_days. cbv zeta.
+  replace (era * 146097 + doe - 719468 + 719468) with (era * 146097 + doe) by lia.
+  assert (E1 : (era * 146097 + doe) / 146097 = era).
+  { symmetry. apply (Z.div_unique (era * 146097 + doe) 146097 era doe); [left; exact Y1|lia]. }
+  rewrite E1. replace (era * 146097 + doe - era * 146097) with doe by lia.
+  rewrite Y2. replace (doe - (365 * yoe + yoe / 4 - yoe / 100)) with doy by (unfold doe; lia).
+  rewrite M1. fold (m_of mp). rewrite Hmo.
+  f_equal; [f_equal|unfold doy; lia].
+  unfold yoe, y'. destruct (m <=? 2); lia.
+Qed.
+
+(** ** Day number -> date -> day number, for every day *)
+
+Theorem days_roundtrip : forall z,
+  let '(y, m, d) := civil_from_days z in valid_dateb y m d = true /\ days_from_civil y m d = z.
+Proof.
+  intros z. unfold civil_from_days. cbv zeta.
+  set (z' := z + 719468). set (era := z' / 146097). set (doe := z' - era * 146097).
+  assert (Hdoe : 0 <= doe < 146097) by (unfold doe, era; dlia).
+  destruct (year_stage_inv doe Hdoe) as (Hyoe & Hdoy & Hleap).
+  set (yoe := (doe - doe / 1460 + doe / 36524 - doe / 146096) / 365) in *.
+  set (doy := doe - (365 * yoe + yoe / 4 - yoe / 100)) in *.
+  destruct (month_stage_inv doy Hdoy) as (Hmp & Hd & H11).
+  set (mp := (5 * doy + 2) / 153) in *.
+  set (d := doy - (153 * mp + 2) / 5 + 1) in *.
+  fold (m_of mp). set (m := m_of mp).
+  set (y := if m <=? 2 then yoe + era * 400 + 1 else yoe + era * 400).
+  assert (Hm : 1 <= m <= 12) by (unfold m, m_of; destruct (Z.ltb_spec mp 10); lia).
+  assert (Emp : mp_of m = mp).
+  { unfold m, m_of, mp_of. destruct (Z.ltb_spec mp 10); [destruct (Z.leb_spec (mp + 3) 2)|destruct (Z.leb_spec (mp - 9) 2)]; lia. }
+  assert (Ey' : (if m <=? 2 then y - 1 else y) = yoe + era * 400) by (unfold y; destruct (m <=? 2); lia).
+  destruct (dim_mlen y m Hm) as (_ & _ & Hne & Heq). rewrite Emp in *.
+  split.
+  - (* the date is valid *)
+    unfold valid_dateb. rewrite !andb_true_iff, !Z.leb_le. repeat split; try lia.
+    destruct (Z.eq_dec m 2) as [E2|N2].
+    + destruct (Heq E2) as [E11 Edim]. rewrite Edim. destruct (H11 E11) as [H29 Hl].
+      destruct (is_leap y) eqn:Ly; [lia|].
+      destruct (Z.eq_dec d 29) as [E29|N29]; [|lia]. exfalso.
+      specialize (Hleap (Hl E29)).
+      assert (Ly' : is_leap y = true).
+      { replace y with (yoe + era * 400 + 1) by (unfold y; rewrite E2; reflexivity).
+        apply leap1_iff. replace (yoe + era * 400 - (yoe + era * 400) / 400 * 400) with yoe by dlia. exact Hleap. }
+      congruence.
+    + rewrite (Hne N2). lia.
+  - (* and gives the day number back *)
+    unfold days_from_civil. cbv zeta. fold (mp_of m). rewrite Emp, Ey'.
+    assert (Ee : (yoe + era * 400) / 400 = era) by dlia. rewrite Ee.
+    replace (yoe + era * 400 - era * 400) with yoe by lia.
+    replace ((153 * mp + 2) / 5 + d - 1) with doy by (unfold d; lia).
+    unfold doy, doe, z'. lia.
 Qed.
 
 (** ** Seconds on the local clock <-> civil fields *)
@@ -125,8 +187,9 @@ Qed.
 
 Theorem civil_of_local_secs : forall c, valid_civil c -> civil_of_secs (local_secs c) = c.
 Proof.
-  intros [y m d h mi s] H. destruct (valid_civil_fields _ H) as (_ & Hd & Hh & Hmi & Hs). simpl in *.
-  unfold civil_of_secs, local_secs. simpl.
+  intros [y m d h mi s] H. destruct (valid_civil_fields _ H) as (_ & Hd & Hh & Hmi & Hs).
+  cbn [c_y c_mo c_d c_h c_mi c_s] in *.
+  unfold civil_of_secs, local_secs. cbn [c_y c_mo c_d c_h c_mi c_s].
   set (D := days_from_civil y m d).
   replace (D * 86400 + h * 3600 + mi * 60 + s) with (D * 86400 + (h * 3600 + mi * 60 + s)) by lia.
   destruct (divmod_unique D 86400 (h * 3600 + mi * 60 + s) ltac:(lia)) as [-> ->].
@@ -146,42 +209,22 @@ Proof.
     inversion H; subst; vm_compute; split; try reflexivity; split; discriminate.
 Qed.
 
-Definition digits4_ok (n : Z) : bool :=
-  ((n / 1000) mod 10 * 1000 + (n / 100) mod 10 * 100 + (n / 10) mod 10 * 10 + (n / 1) mod 10 =? n).
-
-Lemma pairs_sweep : forallb (fun a => forallb (fun b =>
-    ((((10 * a + b) / 10) mod 10 =? a) && (((10 * a + b) / 1) mod 10 =? b))) (zrange 0 10)) (zrange 0 10) = true.
-Proof. vm_compute. reflexivity. Qed.
-
 Lemma num2_digits : forall a b, 0 <= a <= 9 -> 0 <= b <= 9 ->
   ((10 * a + b) / 10) mod 10 = a /\ ((10 * a + b) / 1) mod 10 = b.
-Proof.
-  intros a b Ha Hb. pose proof pairs_sweep as S. rewrite forallb_forall in S.
-  specialize (S a (zrange_In 0 10 a ltac:(lia))). rewrite forallb_forall in S.
-  specialize (S b (zrange_In 0 10 b ltac:(lia))). rewrite andb_true_iff, !Z.eqb_eq in S. exact S.
-Qed.
-
-Lemma quads_sweep : forallb (fun x => forallb (fun y =>
-    ((((100 * x + y) / 1000) mod 10 =? (x / 10) mod 10) && (((100 * x + y) / 100) mod 10 =? (x / 1) mod 10)
-     && (((100 * x + y) / 10) mod 10 =? (y / 10) mod 10) && (((100 * x + y) / 1) mod 10 =? (y / 1) mod 10)))
-    (zrange 0 100)) (zrange 0 100) = true.
-Proof. vm_compute. reflexivity. Qed.
+Proof. intros a b Ha Hb. dlia. Qed.
 
 Lemma num4_digits : forall x y, 0 <= x <= 99 -> 0 <= y <= 99 ->
   ((100 * x + y) / 1000) mod 10 = (x / 10) mod 10 /\ ((100 * x + y) / 100) mod 10 = (x / 1) mod 10 /\
   ((100 * x + y) / 10) mod 10 = (y / 10) mod 10 /\ ((100 * x + y) / 1) mod 10 = (y / 1) mod 10.
-Proof.
-  intros x y Hx Hy. pose proof quads_sweep as S. rewrite forallb_forall in S.
-  specialize (S x (zrange_In 0 100 x ltac:(lia))). rewrite forallb_forall in S.
-  specialize (S y (zrange_In 0 100 y ltac:(lia))). rewrite !andb_true_iff, !Z.eqb_eq in S. tauto.
-Qed.
+Proof. intros x y Hx Hy. dlia. Qed.
 
 Lemma num2_inv : forall a b n, num2 a b = Some n ->
   a = dig n 10 /\ b = dig n 1 /\ 0 <= n <= 99.
 Proof.
   intros a b n H. unfold num2 in H.
   destruct (digit_of a) as [x|] eqn:Ea; [|discriminate]. destruct (digit_of b) as [y|] eqn:Eb; [|discriminate].
-  inversion H; subst n. destruct (digit_of_inv _ _ Ea) as [-> Hx]. destruct (digit_of_inv _ _ Eb) as [-> Hy].
+  assert (En : n = 10 * x + y) by (injection H as E; rewrite <- E; reflexivity). subst n.
+  destruct (digit_of_inv _ _ Ea) as [-> Hx]. destruct (digit_of_inv _ _ Eb) as [-> Hy].
   destruct (num2_digits x y Hx Hy) as [E1 E2]. unfold dig. rewrite E1, E2. repeat split; lia.
 Qed.
 
@@ -190,7 +233,8 @@ Lemma num4_inv : forall a b c d n, num4 a b c d = Some n ->
 Proof.
   intros a b c d n H. unfold num4 in H.
   destruct (num2 a b) as [x|] eqn:E1; [|discriminate]. destruct (num2 c d) as [y|] eqn:E2; [|discriminate].
-  inversion H; subst n. destruct (num2_inv _ _ _ E1) as (-> & -> & Hx). destruct (num2_inv _ _ _ E2) as (-> & -> & Hy).
+  assert (En : n = 100 * x + y) by (injection H as E; rewrite <- E; reflexivity). subst n.
+  destruct (num2_inv _ _ _ E1) as (-> & -> & Hx). destruct (num2_inv _ _ _ E2) as (-> & -> & Hy).
   destruct (num4_digits x y Hx Hy) as (Q1 & Q2 & Q3 & Q4). unfold dig. rewrite Q1, Q2, Q3, Q4. tauto.
 Qed.
 
@@ -214,9 +258,64 @@ Proof.
   destruct (num2 i1 i2) as [i|] eqn:EI; [|discriminate].
   destruct (num2 s1 s2) as [sec|] eqn:ES; [|discriminate].
   destruct (valid_civilb {| c_y := y; c_mo := m; c_d := d; c_h := h; c_mi := i; c_s := sec |}) eqn:V; [|discriminate].
-  inversion H; subst c. split; [|exact V].
+  injection H as <-. split; [|exact V].
   destruct (num4_inv _ _ _ _ _ EY) as (-> & -> & -> & ->).
   destruct (num2_inv _ _ _ EM) as (-> & -> & _). destruct (num2_inv _ _ _ ED) as (-> & -> & _).
   destruct (num2_inv _ _ _ EH) as (-> & -> & _). destruct (num2_inv _ _ _ EI) as (-> & -> & _).
   destruct (num2_inv _ _ _ ES) as (-> & -> & _). reflexivity.
+Qed.
+
+(** ** The other direction: every instant has valid fields, which give it back *)
+
+Theorem secs_of_civil_of_secs : forall t,
+  local_secs (civil_of_secs t) = t /\
+  (1 <= c_y (civil_of_secs t) <= 9999 -> valid_civil (civil_of_secs t)).
+Proof.
+  intros t. unfold civil_of_secs.
+  pose proof (days_roundtrip (t / 86400)) as R. destruct (civil_from_days (t / 86400)) as [[y m] d].
+  destruct R as [Rv Rd].
+  pose proof (Z.div_mod t 86400 ltac:(lia)) as E1. pose proof (Z.mod_pos_bound t 86400 ltac:(lia)) as B1.
+  set (sod := t mod 86400) in *.
+  pose proof (Z.div_mod sod 3600 ltac:(lia)) as E2. pose proof (Z.mod_pos_bound sod 3600 ltac:(lia)) as B2.
+  pose proof (Z.div_mod (sod mod 3600) 60 ltac:(lia)) as E3. pose proof (Z.mod_pos_bound (sod mod 3600) 60 ltac:(lia)) as B3.
+  assert (E4 : sod mod 60 = (sod mod 3600) mod 60).
+  { rewrite E2 at 1. replace (3600 * (sod / 3600) + sod mod 3600) with (sod mod 3600 + (60 * (sod / 3600)) * 60) by lia.
+    apply Z_mod_plus_full. }
+  split.
+  - unfold local_secs. cbn [c_y c_mo c_d c_h c_mi c_s]. rewrite Rd. lia.
+  - cbn [c_y]. intros Hy. unfold valid_civil, valid_civilb. cbn [c_y c_mo c_d c_h c_mi c_s].
+    rewrite Rv. rewrite !andb_true_iff, !Z.leb_le.
+    assert (0 <= sod / 3600 <= 23) by lia.
+    assert (0 <= (sod mod 3600) / 60 <= 59) by lia.
+    pose proof (Z.mod_pos_bound sod 60 ltac:(lia)). intuition lia.
+Qed.
+
+(** Fields -> text -> fields *)
+
+Lemma digit_of_digit : forall k, 0 <= k <= 9 -> digit_of (ascii_of_digit k) = Some k.
+Proof.
+  intros k H.
+  assert (E : k = 0 \/ k = 1 \/ k = 2 \/ k = 3 \/ k = 4 \/ k = 5 \/ k = 6 \/ k = 7 \/ k = 8 \/ k = 9) by lia.
+  destruct E as [E|[E|[E|[E|[E|[E|[E|[E|[E|E]]]]]]]]]; subst k; reflexivity.
+Qed.
+
+Lemma num2_dig : forall n, 0 <= n <= 99 -> num2 (dig n 10) (dig n 1) = Some n.
+Proof.
+  intros n H. unfold num2, dig. rewrite !digit_of_digit by dlia. f_equal. dlia.
+Qed.
+
+Lemma num4_dig : forall n, 0 <= n <= 9999 -> num4 (dig n 1000) (dig n 100) (dig n 10) (dig n 1) = Some n.
+Proof.
+  intros n H. unfold num4, num2, dig. rewrite !digit_of_digit by dlia. f_equal. dlia.
+Qed.
+
+Theorem parse_of_render : forall c, valid_civil c -> parse_datetime (render_datetime c) = Some c.
+Proof.
+  intros c H. destruct (valid_civil_fields _ H) as (Hy & Hd & Hh & Hmi & Hs).
+  destruct (valid_dateb_bounds _ _ _ Hd) as [Hm Hdd].
+  unfold parse_datetime, render_datetime. rewrite list_ascii_of_string_of_list_ascii.
+  cbv beta iota. rewrite !Ascii.eqb_refl. cbn [andb].
+  rewrite (num4_dig (c_y c)) by lia. rewrite (num2_dig (c_mo c)) by lia. rewrite (num2_dig (c_d c)) by lia.
+  rewrite (num2_dig (c_h c)) by lia. rewrite (num2_dig (c_mi c)) by lia. rewrite (num2_dig (c_s c)) by lia.
+  destruct c as [y m d h mi s]. cbn [c_y c_mo c_d c_h c_mi c_s] in *. unfold valid_civil in H. rewrite H. reflexivity.
 Qed.
